@@ -2,7 +2,7 @@
    A. assign        B. replace, text (str.replace)      C. replace, styles
    D. replace, no-op cases       E. replace with an empty pattern. *)
 From AS Require Import Base.
-From AS.Model Require Import Table Ops Parse StrOps.
+From AS.Model Require Import Tokenizer Table Ops Parse StrOps.
 From AS.Proofs Require Import TableProofs SliceProofs PadProofs ApplyProofs ConcatProofs ParseBasics.
 From AS.Proofs Require StrOpsProofs.
 From AS.Spec Require Import PyStr.
@@ -433,17 +433,24 @@ Proof.
 Qed.
 
 (* ---------- the model's loop ---------- *)
-Definition repl_text (r : repl) : str := match r with RStr raw => raw | RObj a => base a end.
+(* the text a replacement contributes: a str is parsed first (its SGR sequences are not text) *)
+Definition repl_text (r : repl) : str :=
+  match r with RStr raw => unformatted (tokenize false (Some [CH_m]) raw) | RObj a => base a end.
 (* a plain-str replacement without escape sequences (so that AnsiString(raw) is raw, unformatted) *)
 Definition repl_plain (r : repl) : Prop := match r with RStr raw => no_esc raw = true | RObj _ => True end.
 
-Lemma repl_len_text r : repl_len r = length (repl_text r).
-Proof. destruct r; reflexivity. Qed.
+Lemma repl_text_plain raw : no_esc raw = true -> repl_text (RStr raw) = raw.
+Proof. intros H. cbn [repl_text]. rewrite <- (parse_base raw 0), (parse_plain raw 0 H). reflexivity. Qed.
 
-Lemma repl_value_base obj i r nid : repl_plain r -> base (fst (repl_value obj i r nid)) = repl_text r.
+Lemma repl_len_text r : repl_plain r -> repl_len r = length (repl_text r).
+Proof. destruct r as [raw|a]; cbn [repl_plain]; intros H; [now rewrite repl_text_plain|reflexivity]. Qed.
+
+(* whatever the replacement: the value put in has the text repl_text r *)
+Lemma repl_value_base obj i r nid : base (fst (repl_value obj i r nid)) = repl_text r.
 Proof.
-  destruct r as [raw|a]; cbn [repl_plain repl_value repl_text]; intros H; [|reflexivity].
-  rewrite (parse_plain raw nid H). destruct (is_nil _); [reflexivity|].
+  destruct r as [raw|a]; cbn [repl_value repl_text]; [|reflexivity].
+  rewrite <- (parse_base raw nid). destruct (parse raw nid) as [p nid0]. cbn [fst].
+  destruct (is_nil _); [reflexivity|].
   destruct (Parse.fresh _ _) as [news nid']. cbn [fst]. now rewrite ApplyProofs.apply_fmt_base.
 Qed.
 
@@ -508,30 +515,29 @@ Lemma replace_loop_S f obj old r count idx nid :
       do lft <- add (getitem_slice obj None (Some (Z.of_nat i))) rv;
       do obj' <- add lft (getitem_slice obj (Some (Z.of_nat (i + length old))) None);
       replace_loop f obj' old r (dec_count count)
-                   (find_from (base obj') old (i + repl_len r + (if is_nil old then 1 else 0))) nid
+                   (find_from (base obj') old (i + length (base rv) + (if is_nil old then 1 else 0))) nid
   end.
 Proof. reflexivity. Qed.
 
 (* one iteration, on the text: [done] is finished, [rest] is a suffix of the original *)
 Lemma replace_step_text obj old r done a b i nid rv nid1 lft obj' :
-  repl_plain r ->
   base obj = done ++ a ++ old ++ b -> i = length done + length a ->
   repl_value obj i r nid = (rv, nid1) ->
   add (getitem_slice obj None (Some (Z.of_nat i))) rv = OK lft ->
   add lft (getitem_slice obj (Some (Z.of_nat (i + length old))) None) = OK obj' ->
-  base lft = done ++ a ++ repl_text r /\ base obj' = (done ++ a ++ repl_text r) ++ b.
+  base rv = repl_text r /\ base obj' = (done ++ a ++ repl_text r) ++ b.
 Proof.
-  intros Hp Eb Ei Erv El Eo.
+  intros Eb Ei Erv El Eo.
   assert (Hlen : length (base obj) = length done + length a + length old + length b)
     by (rewrite Eb, !app_length; lia).
   apply iadd_text in El. apply iadd_text in Eo.
-  pose proof (repl_value_base obj i r nid Hp) as Hrv. rewrite Erv in Hrv. cbn [fst] in Hrv.
+  pose proof (repl_value_base obj i r nid) as Hrv. rewrite Erv in Hrv. cbn [fst] in Hrv.
   rewrite slice_prefix_base in El by lia. rewrite slice_suffix_base in Eo by lia.
   assert (E1 : firstn i (base obj) = done ++ a).
   { rewrite Eb, app_assoc. subst i. rewrite <- app_length. apply StrOpsProofs.firstn_len_app. }
   assert (E2 : skipn (i + length old) (base obj) = b).
   { rewrite Eb. subst i. rewrite !app_assoc. rewrite <- !app_length. apply StrOpsProofs.skipn_len_app. }
-  rewrite E1, Hrv in El. rewrite E2 in Eo. rewrite <- app_assoc in El. split; [exact El|]. now rewrite Eo, El.
+  rewrite E1, Hrv in El. rewrite E2 in Eo. rewrite <- app_assoc in El. split; [exact Hrv|]. now rewrite Eo, El.
 Qed.
 
 Lemma py_replace_dec b old new count : (count =? 0)%Z = false ->
@@ -541,7 +547,7 @@ Proof.
   apply Z.ltb_ge in E. apply py_replace_neg; lia.
 Qed.
 
-Lemma replace_loop_text old r : old <> [] -> repl_plain r ->
+Lemma replace_loop_text old r : old <> [] ->
   forall fuel obj done rest count nid,
   base obj = done ++ rest -> length rest < fuel ->
   match replace_loop fuel obj old r count (find_at rest old (length done)) nid with
@@ -549,7 +555,7 @@ Lemma replace_loop_text old r : old <> [] -> repl_plain r ->
   | Err e => e = IndexError
   end.
 Proof.
-  intros Ho Hp. apply nonempty_length in Ho as Hl.
+  intros Ho. apply nonempty_length in Ho as Hl.
   induction fuel as [|f IH]; intros obj done rest count nid Eb Hf; [lia|].
   rewrite replace_loop_S, (py_replace_unfold rest old (repl_text r) count Ho).
   pose proof (StrOpsProofs.find_at_cut old rest (length done)) as Hc.
@@ -560,9 +566,9 @@ Proof.
   destruct (add _ rv) as [lft|e] eqn:El; cbn [bind]; [|now apply iadd_err in El].
   destruct (add lft _) as [obj'|e] eqn:Eo; cbn [bind]; [|now apply iadd_err in Eo].
   rewrite Er in Eb.
-  destruct (replace_step_text obj old r done a b i nid rv nid1 lft obj' Hp Eb Ei Erv El Eo) as [_ Eo'].
+  destruct (replace_step_text obj old r done a b i nid rv nid1 lft obj' Eb Ei Erv El Eo) as [Hrv Eo'].
   replace (is_nil old) with false by (destruct old; [congruence|reflexivity]).
-  rewrite Nat.add_0_r, repl_len_text, Eo'.
+  rewrite Nat.add_0_r, Hrv, Eo'.
   replace (i + length (repl_text r)) with (length (done ++ a ++ repl_text r)) by (rewrite !app_length; lia).
   rewrite find_from_app.
   assert (Hb : length b < f) by (rewrite Er, !app_length in Hf; lia).
@@ -572,21 +578,21 @@ Proof.
 Qed.
 
 (* B1. the text of the result *)
-Theorem replace_text s old r count nid s' nid' : old <> [] -> repl_plain r ->
+Theorem replace_text s old r count nid s' nid' : old <> [] ->
   replace s old r count nid = OK (s', nid') ->
   base s' = py_replace (base s) old (repl_text r) count.
 Proof.
-  intros Ho Hp E. unfold replace in E. rewrite StrOpsProofs.find_from_0 in E.
-  pose proof (replace_loop_text old r Ho Hp (length (base s) + 2) s [] (base s) count nid eq_refl ltac:(lia)) as H.
+  intros Ho E. unfold replace in E. rewrite StrOpsProofs.find_from_0 in E.
+  pose proof (replace_loop_text old r Ho (length (base s) + 2) s [] (base s) count nid eq_refl ltac:(lia)) as H.
   cbn [length] in H. rewrite E in H. exact H.
 Qed.
 
 (* B2. the fuel is always sufficient: the out-of-fuel answer (ValueError) is never given *)
-Theorem replace_fuel_enough s old r count nid e : old <> [] -> repl_plain r ->
+Theorem replace_fuel_enough s old r count nid e : old <> [] ->
   replace s old r count nid = Err e -> e = IndexError.
 Proof.
-  intros Ho Hp E. unfold replace in E. rewrite StrOpsProofs.find_from_0 in E.
-  pose proof (replace_loop_text old r Ho Hp (length (base s) + 2) s [] (base s) count nid eq_refl ltac:(lia)) as H.
+  intros Ho E. unfold replace in E. rewrite StrOpsProofs.find_from_0 in E.
+  pose proof (replace_loop_text old r Ho (length (base s) + 2) s [] (base s) count nid eq_refl ltac:(lia)) as H.
   cbn [length] in H. rewrite E in H. exact H.
 Qed.
 
@@ -1011,8 +1017,8 @@ Lemma repl_value_props obj i r nid rv nid1 :
   /\ (forall obj', WF obj' -> sub_occurs (tbl obj') (tbl obj ++ tbl rv) -> repl_inv r obj' nid1).
 Proof.
   intros Hok [Wo Hinv] E. rewrite styles_nth_gen.
-  destruct r as [raw|a]; cbn [repl_ok repl_text repl_styles] in *.
-  - destruct Hinv as [Co Ib].
+  destruct r as [raw|a]; cbn [repl_ok repl_styles] in *.
+  - rewrite (repl_text_plain raw Hok). destruct Hinv as [Co Ib].
     (* all cases end the same way *)
     assert (Fin : forall news n, NoDup (ids news) -> (forall x, In x news -> nid <= sid x < nid + n) ->
               (forall y, occurs y (tbl rv) -> In y news) -> nid1 = nid + n ->
@@ -1087,9 +1093,9 @@ Proof.
   destruct Inv as [Wo _].
   destruct (splice obj rv i (length old) Wo Wr Cr ltac:(lia)) as (lft & obj' & El & Eo & W' & _ & S' & Sub).
   rewrite El. cbn [bind]. rewrite Eo. cbn [bind].
-  destruct (replace_step_text obj old r done a b i nid rv nid1 lft obj' Hp Eb Ei Erv El Eo) as [_ Eo'].
+  destruct (replace_step_text obj old r done a b i nid rv nid1 lft obj' Eb Ei Erv El Eo) as [_ Eo'].
   replace (is_nil old) with false by (destruct old; [congruence|reflexivity]).
-  rewrite Nat.add_0_r, repl_len_text, Eo'.
+  rewrite Nat.add_0_r, Br, Eo'.
   replace (i + length (repl_text r)) with (length (done ++ a ++ repl_text r)) by (rewrite !app_length; lia).
   rewrite find_from_app.
   assert (Hb : length b < f) by (rewrite Er, !app_length in Hf; lia).
@@ -1099,7 +1105,7 @@ Proof.
   rewrite S1, replace_styles_dec by exact Ec. rewrite S'.
   set (ST := styles obj) in *. set (RS := styles rv) in *.
   assert (LST : length ST = length (base obj)) by apply styles_length.
-  assert (LRS : length RS = length (repl_text r)) by (rewrite Sr, repl_styles_length; apply repl_len_text).
+  assert (LRS : length RS = length (repl_text r)) by (unfold RS; now rewrite styles_length, Br).
   assert (L1 : length (firstn i ST ++ RS) = length (done ++ a ++ repl_text r)).
   { rewrite !app_length, firstn_length, LRS. lia. }
   rewrite (app_assoc (firstn i ST) RS (skipn (i + length old) ST)).
@@ -1125,7 +1131,7 @@ Proof.
   cbn [length firstn skipn app] in *. exists o, n.
   assert (E' : replace s old r count nid = OK (o, n)) by (unfold replace; now rewrite StrOpsProofs.find_from_0).
   split; [exact E'|]. split; [|split; [exact S'|exact Inv']].
-  eapply replace_text; eauto. now apply repl_ok_plain.
+  eapply replace_text; eauto.
 Qed.
 
 (* the two cases spelled out *)
@@ -1139,7 +1145,7 @@ Corollary replace_str_spec s old raw count nid :
 Proof.
   intros Ho Hn W C I. destruct (replace_spec s old (RStr raw) count nid Ho Hn (conj W (conj C I)))
     as (s' & nid' & E & B & S' & W' & C' & I').
-  exists s', nid'. auto 10.
+  rewrite (repl_text_plain raw Hn) in B. exists s', nid'. auto 10.
 Qed.
 
 Corollary replace_obj_spec s old a count nid :
@@ -1174,6 +1180,8 @@ Qed.
 
 Module EditExamples.
 Local Open Scope string_scope.
+Definition tS_red := tS "red".
+Definition tS_bold := tS "bold".
 Definition red := mkS 1 (tS "red").
 Definition bold := mkS 2 (tS "bold").
 Definition blue := mkS 7 (tS "blue").
@@ -1321,7 +1329,7 @@ Qed.
 Lemma find_at_empty s pos : find_at s [] pos = Some pos.
 Proof. destruct s; reflexivity. Qed.
 
-Lemma replace_loop_empty_text r : repl_plain r ->
+Lemma replace_loop_empty_text r :
   forall fuel obj done rest count nid,
   base obj = done ++ rest -> length rest + 1 < fuel ->
   match replace_loop fuel obj [] r count (Some (length done)) nid with
@@ -1329,16 +1337,16 @@ Lemma replace_loop_empty_text r : repl_plain r ->
   | Err e => e = IndexError
   end.
 Proof.
-  intros Hp. induction fuel as [|f IH]; intros obj done rest count nid Eb Hf; [lia|].
+  induction fuel as [|f IH]; intros obj done rest count nid Eb Hf; [lia|].
   rewrite replace_loop_S, py_replace_empty_eq.
   destruct (count =? 0)%Z eqn:Ec; [exact Eb|].
   destruct (repl_value obj (length done) r nid) as [rv nid1] eqn:Erv.
   destruct (add _ rv) as [lft|e] eqn:El; cbn [bind]; [|now apply iadd_err in El].
   destruct (add lft _) as [obj'|e] eqn:Eo; cbn [bind]; [|now apply iadd_err in Eo].
   assert (Eb' : base obj = done ++ [] ++ [] ++ rest) by exact Eb.
-  destruct (replace_step_text obj [] r done [] rest (length done) nid rv nid1 lft obj' Hp Eb'
-              ltac:(cbn [length]; lia) Erv El Eo) as [_ Eo'].
-  cbn [app is_nil] in Eo'. rewrite repl_len_text.
+  destruct (replace_step_text obj [] r done [] rest (length done) nid rv nid1 lft obj' Eb'
+              ltac:(cbn [length]; lia) Erv El Eo) as [Hrv Eo'].
+  cbn [app is_nil] in Eo'. rewrite Hrv.
   change (if is_nil (@nil char) then 1 else 0) with 1.
   destruct rest as [|c rest'].
   - rewrite app_nil_r in Eo'. unfold find_from. rewrite Eo', app_length.
@@ -1356,21 +1364,21 @@ Proof.
     rewrite IH, py_replace_empty_dec by exact Ec. rewrite <- !app_assoc. reflexivity.
 Qed.
 
-Theorem replace_empty_text s r count nid s' nid' : repl_plain r ->
+Theorem replace_empty_text s r count nid s' nid' :
   replace s [] r count nid = OK (s', nid') ->
   base s' = py_replace_empty (repl_text r) count (base s).
 Proof.
-  intros Hp E. unfold replace in E. rewrite StrOpsProofs.find_from_0, find_at_empty in E.
-  pose proof (replace_loop_empty_text r Hp (length (base s) + 2) s [] (base s) count nid eq_refl ltac:(lia)) as H.
+  intros E. unfold replace in E. rewrite StrOpsProofs.find_from_0, find_at_empty in E.
+  pose proof (replace_loop_empty_text r (length (base s) + 2) s [] (base s) count nid eq_refl ltac:(lia)) as H.
   cbn [length] in H. rewrite E in H. exact H.
 Qed.
 
 (* the repaired loop terminates for an empty pattern: the fuel is enough here too *)
-Theorem replace_empty_fuel_enough s r count nid e : repl_plain r ->
+Theorem replace_empty_fuel_enough s r count nid e :
   replace s [] r count nid = Err e -> e = IndexError.
 Proof.
-  intros Hp E. unfold replace in E. rewrite StrOpsProofs.find_from_0, find_at_empty in E.
-  pose proof (replace_loop_empty_text r Hp (length (base s) + 2) s [] (base s) count nid eq_refl ltac:(lia)) as H.
+  intros E. unfold replace in E. rewrite StrOpsProofs.find_from_0, find_at_empty in E.
+  pose proof (replace_loop_empty_text r (length (base s) + 2) s [] (base s) count nid eq_refl ltac:(lia)) as H.
   cbn [length] in H. rewrite E in H. exact H.
 Qed.
 
@@ -1437,13 +1445,13 @@ Proof.
   destruct (splice obj rv i 0 Wo Wr Cr ltac:(lia)) as (lft & obj' & El & Eo & W' & _ & S' & Sub).
   change (length (@nil char)) with 0. rewrite El. cbn [bind]. rewrite Eo. cbn [bind].
   assert (Eb' : base obj = done ++ [] ++ [] ++ rest) by exact Eb.
-  destruct (replace_step_text obj [] r done [] rest i nid rv nid1 lft obj' Hp Eb'
+  destruct (replace_step_text obj [] r done [] rest i nid rv nid1 lft obj' Eb'
               ltac:(unfold i; cbn [length]; lia) Erv El Eo) as [_ Eo'].
-  cbn [app] in Eo'. rewrite repl_len_text. change (if is_nil (@nil char) then 1 else 0) with 1.
+  cbn [app] in Eo'. rewrite Br. change (if is_nil (@nil char) then 1 else 0) with 1.
   rewrite Nat.add_0_r in S'.
   set (ST := styles obj) in *. set (RS := styles rv) in *.
   assert (LST : length ST = length (base obj)) by apply styles_length.
-  assert (LRS : length RS = length (repl_text r)) by (rewrite Sr, repl_styles_length; apply repl_len_text).
+  assert (LRS : length RS = length (repl_text r)) by (unfold RS; now rewrite styles_length, Br).
   destruct rest as [|c rest'].
   - cbn [length] in Hlen. rewrite app_nil_r in Eo'. unfold find_from. rewrite Eo', app_length. fold i.
     replace (i + length (repl_text r) <? i + length (repl_text r) + 1) with true
@@ -1486,7 +1494,7 @@ Proof.
   assert (E' : replace s [] r count nid = OK (o, n))
     by (unfold replace; now rewrite StrOpsProofs.find_from_0, find_at_empty).
   split; [exact E'|]. split; [|split; [exact S'|exact Inv']].
-  eapply replace_empty_text; eauto. now apply repl_ok_plain.
+  eapply replace_empty_text; eauto.
 Qed.
 
 Module EmptyExamples.
@@ -1513,20 +1521,33 @@ Example ex_replace_empty_spec := replace_empty_spec s1 (RStr (tS "-")) (-1) 100 
 End EmptyExamples.
 
 (* ====================================================================== *)
-(* A hypothesis that is really needed: no escape sequence in a str replacement.       *)
-(* The loop resumes its search at idx + len(new), the length of the RAW replacement,  *)
-(* while the text put into the string is the PARSED replacement.  With "\x1b[1mb"     *)
-(* (5 raw characters, 1 character of text) the second match of "a" in "xaa" is jumped *)
-(* over.  ansi_string.py does the same (checked): AnsiString('xaa').replace('a',      *)
-(* '\x1b[1mb').base_str == 'xba', whereas 'xaa'.replace('a', 'b') == 'xbb'.           *)
+(* A str replacement with escape sequences (repaired, F27).  The loop used to resume   *)
+(* its search at idx + len(new), the length of the RAW replacement, while the text put *)
+(* into the string is the PARSED replacement, so that with "\x1b[1mb" (5 raw           *)
+(* characters, 1 character of text) the second "a" of "xaa" was jumped over ('xba').   *)
+(* It now resumes after the text actually inserted; the text theorems above hold for   *)
+(* every raw replacement, with repl_text (RStr raw) = the text of AnsiString(raw).     *)
+(* The styles theorems keep the hypothesis no_esc raw: with escapes the replacement    *)
+(* carries its own parsed settings below those of the match's first character.         *)
 (* ====================================================================== *)
-Example esc_replacement_skips_a_match :
+Example esc_replacement_every_match :
   let raw := [27; 91; 49; 109; 98]%N in      (* ESC [ 1 m b *)
   no_esc raw = false
+  /\ repl_text (RStr raw) = [98%N]
   /\ base (fst (parse raw 100)) = [98%N]
-  /\ option_map fst (EditExamples.run_replace (mkA [120; 97; 97]%N []) [97%N] (RStr raw) (-1)) = Some [120; 98; 97]%N
-  /\ py_replace [120; 97; 97]%N [97%N] [98%N] (-1) = [120; 98; 98]%N.
+  /\ EditExamples.run_replace (mkA [120; 97; 97]%N []) [97%N] (RStr raw) (-1)
+     = Some ([120; 98; 98]%N, [[]; [[49%N]]; [[49%N]]])
+  /\ py_replace [120; 97; 97]%N [97%N] (repl_text (RStr raw)) (-1) = [120; 98; 98]%N
+  /\ option_map fst (EditExamples.run_replace EditExamples.s1 [97; 97]%N (RStr raw) (-1))
+     = Some (py_replace (base EditExamples.s1) [97; 97]%N (repl_text (RStr raw)) (-1))
+  /\ option_map fst (EditExamples.run_replace EditExamples.s1 [] (RStr raw) 2)
+     = Some (py_replace_empty (repl_text (RStr raw)) 2 (base EditExamples.s1)).
 Proof. repeat split; reflexivity. Qed.
+(* the match's own settings go on top of the replacement's parsed ones: bold(1) then red, red+bold *)
+Example esc_replacement_styles :
+  option_map snd (EditExamples.run_replace EditExamples.s1 [97; 97]%N (RStr [27; 91; 49; 109; 98]%N) (-1))
+  = Some [[]; [[49%N]; EditExamples.tS_red]; [[49%N]; EditExamples.tS_red; EditExamples.tS_bold]; []].
+Proof. reflexivity. Qed.
 
 Print Assumptions assign_base.
 Print Assumptions assign_keep.
